@@ -108,3 +108,11 @@ contract(_GISEL, props=["C09"], variant="two_dims",
          returns="opaque", ensures=[],
          options={"abstract": True, "summaries": [_SL + f for f in ("_slice_node_indices", "_slice_edge_indices", "_slice_face_indices")]},
          raises=[("ValueError", "True", "iff")])
+
+
+# C06: Grid.calculate_total_face_area and UxDataset.integrate use the areas computed for THE REQUESTED rule and order
+contract("uxarray.grid.grid.Grid.calculate_total_face_area", props=["C06", "C05"],
+         params={"self": "obj('Grid')", "quadrature_rule": "opaque", "order": "opaque"}, returns="opaque",
+         ensures=["same(result, lib('numpy.sum', uf('face_areas', src(self), quadrature_rule, order, True)))"],
+         options={"abstract": True},
+         raises=[("Exception", "False", "only_if")])
